@@ -1,8 +1,9 @@
 (** C06 — executable model of dereplication (pkg/obichunk IUniqueSequence, pkg/obiseq Merge / classifiers).
 
     A record is its nucleotide string (bytes), its count ([Count()]: 1 when the attribute is absent), its
-    plain annotations (key code |-> value code; a value is modelled by its printed form, [fmt.Sprint]) and
-    its [merged_<k>] maps (key code |-> association list value code |-> weight).
+    plain annotations (key code |-> TYPED value, see [value]) and its [merged_<k>] maps (slot code |->
+    association list value code |-> weight).  Strings are interned to N codes by the renderer (codes start
+    at 1; 0 is never a string).
     Association lists only (stdlib); executable definitions only — proofs are in Proofs.v. *)
 From Coq Require Import List NArith ZArith Bool.
 Import ListNotations.
@@ -42,21 +43,62 @@ Fixpoint stat_add (v : N) (w : Z) (m : stats) : stats :=
 Definition stat_merge (m m2 : stats) : stats :=
   fold_left (fun acc vw => stat_add (fst vw) (snd vw) acc) m2 m.
 
+(** ---------- typed attribute values (Go interface{} values as the readers / the harness builder produce them) *)
+Record value := mkval {
+  vtag : N;          (* dynamic type: 0 string, 1 int (OBI-format headers, programmatic), 2 float64 (what the JSON header
+                        reader leaves every number, hence every number that went through a chunk file), 3 bool,
+                        4 composite ([]interface{}, map[string]interface{}), 5 nil *)
+  vprint : N;        (* code of fmt.Sprint(v): what AnnotationClassifier compares *)
+  vexact : N;        (* code of the canonical JSON text of v: with vtag, what BioSequence.Merge compares
+                        (== for scalars, reflect.DeepEqual otherwise) *)
+  vstat : N;         (* code of the key StatsPlusOne uses: the string itself, Sprint of an int / bool,
+                        Sprint(int(f)) of an integral float64; 0 = log.Fatalf (other floats, composites, nil) *)
+  vint : option Z    (* obiutils.InterfaceToInt: the int, the truncated float64; None for every other type *)
+}.
+
+Definition oZ_eqb (a b : option Z) : bool :=
+  match a, b with Some x, Some y => (x =? y)%Z | None, None => true | _, _ => false end.
+
+Definition val_eqb (v w : value) : bool :=
+  (vtag v =? vtag w) && (vprint v =? vprint w) && (vexact v =? vexact w) && (vstat v =? vstat w) && oZ_eqb (vint v) (vint w).
+
+(* a string value (what obidemerge stores) *)
+Definition strval (s : N) : value := mkval 0 s s s None.
+
 (** ---------- records *)
 Record urec := mkrec {
   useq : list N;                     (* nucleotides *)
   ucount : Z;                        (* Count() *)
-  uann : list (N * N);               (* annotations other than count and merged_* *)
-  umerged : list (N * stats)         (* merged_<k> maps already carried by the record *)
+  uann : list (N * value);           (* annotations other than count and merged_* *)
+  umerged : list (N * stats)         (* merged_<slot> maps already carried by the record *)
 }.
 
-(* value of attribute k as seen by AnnotationClassifier / StatsPlusOne: NA when absent *)
+(* value of attribute k as seen by AnnotationClassifier: fmt.Sprint, NA when absent *)
 Definition aval (na : N) (r : urec) (k : N) : N :=
-  match lookup k (uann r) with Some v => v | None => na end.
+  match lookup k (uann r) with Some v => vprint v | None => na end.
 
-(* BioSequence.StatsOn: the existing merged_<k> map, or a fresh one holding the record itself *)
-Definition smap (na : N) (r : urec) (k : N) : stats :=
-  match lookup k (umerged r) with Some m => m | None => [(aval na r k, ucount r)] end.
+(* value of attribute k as seen by StatsPlusOne: NA when absent *)
+Definition sval (na : N) (r : urec) (k : N) : N :=
+  match lookup k (uann r) with Some v => vstat v | None => na end.
+
+(** statistics descriptors (obiseq.MakeStatsOnDescription): a slot code s (the text after -m, "key" or "key:weight")
+    is mapped by [ds] to (code of key, code of the weight attribute if any).  Slot merged_<s>. *)
+Definition dspec := N -> N * option N.
+Definition dflt : dspec := fun s => (s, None).
+
+(* desc.Weight(r): Count() without weight attribute; else GetIntAttribute(weight), 0 when absent or not a number *)
+Definition wgt (ds : dspec) (r : urec) (s : N) : Z :=
+  match snd (ds s) with
+  | None => ucount r
+  | Some w => match lookup w (uann r) with
+              | Some v => match vint v with Some z => z | None => 0%Z end
+              | None => 0%Z
+              end
+  end.
+
+(* BioSequence.StatsOn: the existing merged_<s> map, or a fresh one holding the record itself *)
+Definition smap (ds : dspec) (na : N) (r : urec) (s : N) : stats :=
+  match lookup s (umerged r) with Some m => m | None => [(sval na r (fst (ds s)), wgt ds r s)] end.
 
 Definition others (ks : list N) (m : list (N * stats)) : list (N * stats) :=
   filter (fun kv => negb (existsb (N.eqb (fst kv)) ks)) m.
@@ -64,28 +106,40 @@ Definition others (ks : list N) (m : list (N * stats)) : list (N * stats) :=
 (* the loop "for _, desc := range statsOn { seq.StatsOn(desc, na) }" (statsOn is a Go map: independent slots).
    BioSequence.Merge creates the maps lazily at its first call, before it touches count or annotations:
    hoisting it here is exact. *)
-Definition init (na : N) (sts : list N) (r : urec) : urec :=
-  mkrec (useq r) (ucount r) (uann r) (map (fun k => (k, smap na r k)) sts ++ others sts (umerged r)).
+Definition init (ds : dspec) (na : N) (sts : list N) (r : urec) : urec :=
+  mkrec (useq r) (ucount r) (uann r) (map (fun k => (k, smap ds na r k)) sts ++ others sts (umerged r)).
 
-(* an annotation of the accumulator survives iff tomerge carries the same value *)
-Definition agree (r : urec) (kv : N * N) : bool :=
-  match lookup (fst kv) (uann r) with Some v' => snd kv =? v' | None => false end.
+(* an annotation of the accumulator survives iff tomerge carries the same TYPED value ("va != vm" on interface
+   values: same dynamic type and same value) *)
+Definition agree (r : urec) (kv : N * value) : bool :=
+  match lookup (fst kv) (uann r) with Some v' => val_eqb (snd kv) v' | None => false end.
 
-(* BioSequence.Merge(tomerge, na, inplace, statsOn) *)
-Definition merge2 (na : N) (sts : list N) (acc r : urec) : urec :=
+(* BioSequence.SetCount: "if count < 1 { count = 1 }" *)
+Definition clamp1 (z : Z) : Z := if (z <? 1)%Z then 1%Z else z.
+Definition setcount (r : urec) : urec := mkrec (useq r) (clamp1 (ucount r)) (uann r) (umerged r).
+
+(* BioSequence.Merge(tomerge, na, inplace, statsOn): "count := sequence.Count() + tomerge.Count()" is read before the
+   statistics are updated and stored through SetCount at the end *)
+Definition merge2 (ds : dspec) (na : N) (sts : list N) (acc r : urec) : urec :=
   mkrec (useq acc)
-        (ucount acc + ucount r)%Z
+        (clamp1 (ucount acc + ucount r))
         (filter (agree r) (uann acc))
         (map (fun k => (k, match lookup k (umerged r) with
-                           | Some mmk => stat_merge (smap na acc k) mmk                      (* tomerge.HasStatsOn *)
-                           | None => stat_add (aval na r k) (ucount r) (smap na acc k)        (* StatsPlusOne *)
+                           | Some mmk => stat_merge (smap ds na acc k) mmk                              (* tomerge.HasStatsOn *)
+                           | None => stat_add (sval na r (fst (ds k))) (wgt ds r k) (smap ds na acc k)  (* StatsPlusOne *)
                            end)) sts ++ others sts (umerged acc)).
 
-(* BioSequenceSlice.Merge: the class is merged into its first record *)
-Definition merge_class (na : N) (sts : list N) (b : list urec) : list urec :=
+(* BioSequenceSlice.Merge: the class is merged into its first record; a class of one record goes through
+   "seq.SetCount(seq.Count())" and then the creation of its statistics *)
+Definition merge1 (ds : dspec) (na : N) (sts : list N) (x : urec) (rest : list urec) : urec :=
+  match rest with
+  | [] => init ds na sts (setcount x)
+  | _ => fold_left (merge2 ds na sts) rest (init ds na sts x)
+  end.
+Definition merge_class (ds : dspec) (na : N) (sts : list N) (b : list urec) : list urec :=
   match b with
   | [] => []
-  | r :: rest => [fold_left (merge2 na sts) rest (init na sts r)]
+  | r :: rest => [merge1 ds na sts r rest]
   end.
 
 (** ---------- classification *)
@@ -111,11 +165,16 @@ Fixpoint subclass (fs : list (urec -> list N)) (b : list urec) : list (list urec
   | f :: fs' => flat_map (fun g => match g with [_] => [g] | _ => subclass fs' g end) (groups f b)
   end.
 
+(* what happens to one class of a level: a single record goes to the output, else the next levels *)
+Definition substep (fs : list (urec -> list N)) (g : list urec) : list (list urec) :=
+  match g with [_] => [g] | _ => subclass fs g end.
+
 Section Uniq.
   Variable h : list N -> nat.        (* the hash of HashClassifier: ANY function of the sequence *)
   Variable nchunks : nat.
   Variable cats : list N.            (* -c, in command line order *)
-  Variable sts : list N.             (* -m *)
+  Variable ds : dspec.               (* -m descriptors: slot |-> (key, weight attribute) *)
+  Variable sts : list N.             (* -m slots *)
   Variable na : N.
   Variable nosingleton : bool.
 
@@ -131,7 +190,28 @@ Section Uniq.
     negb (nosingleton && match b with [r] => (ucount r =? 1)%Z | _ => false end).
 
   Definition uniq (l : list urec) : list urec :=
-    flat_map (merge_class na sts) (filter keep (batches l)).
+    flat_map (merge_class ds na sts) (filter keep (batches l)).
+
+  (** on-disk mode (ISequenceChunkOnDisk, one worker): every hash chunk is written to chunk_<code>.fastx with the
+      FASTA/FASTQ + JSON-header writer and read back ([rt] : one record through write + read), the files are processed
+      in directory order ([ord] : some rearrangement of the chunks), each file is one batch for the sequence level. *)
+  Variable rt : urec -> urec.
+  Variable ord : list (list urec) -> list (list urec).
+  Definition sublevels : list (urec -> list N) := useq :: map cat_class (rev cats).
+  Definition batches_disk (l : list urec) : list (list urec) :=
+    flat_map (fun ch => substep sublevels (map rt ch)) (ord (groups hash_class l)).
+  Definition uniq_disk (l : list urec) : list urec :=
+    flat_map (merge_class ds na sts) (filter keep (batches_disk l)).
+
+  (** StatsPlusOne stops the program (log.Fatalf) on a value that is not a string / integer / boolean: it is called on
+      every record of a kept class that does not carry the slot already *)
+  Definition statable (r : urec) : bool :=
+    forallb (fun s => match lookup s (umerged r) with
+                      | Some _ => true
+                      | None => match lookup (fst (ds s)) (uann r) with Some v => negb (vstat v =? 0) | None => true end
+                      end) sts.
+  Definition uniq_run (l : list urec) : option (list urec) :=
+    if forallb (forallb statable) (filter keep (batches l)) then Some (uniq l) else None.
 End Uniq.
 
 (** ---------- obidemerge -d k : one record per value of merged_<k>, count = weight *)
@@ -143,20 +223,21 @@ Fixpoint mremove {V : Type} (k : N) (m : list (N * V)) : list (N * V) :=
 
 Definition demerge1 (k : N) (r : urec) : list urec :=
   match lookup k (umerged r) with
-  | Some m => map (fun vw => mkrec (useq r) (if (snd vw <? 1)%Z then 1%Z else snd vw)       (* SetCount: a count < 1 becomes 1 *)
-                                   ((k, fst vw) :: mremove k (uann r)) (mremove k (umerged r))) m
+  | Some m => map (fun vw => mkrec (useq r) (clamp1 (snd vw))
+                                   ((k, strval (fst vw)) :: mremove k (uann r)) (mremove k (umerged r))) m
   | None => [r]
   end.
 Definition demerge (k : N) (l : list urec) : list urec := flat_map (demerge1 k) l.
 
 (** ---------- projection compared with the implementation *)
 Record uout := mkout {
-  oseq : list N; ocats : list N; ocount : Z; omerged : list (N * stats); oann : list (N * N)
+  oseq : list N; ocats : list N; ocount : Z; omerged : list (N * stats); oann : list (N * (N * N))   (* key |-> (tag, exact) *)
 }.
 
 Definition project (na : N) (cats sts : list N) (r : urec) : uout :=
   mkout (useq r) (map (aval na r) cats) (ucount r)
-        (map (fun k => (k, match lookup k (umerged r) with Some m => m | None => [] end)) sts) (uann r).
+        (map (fun k => (k, match lookup k (umerged r) with Some m => m | None => [] end)) sts)
+        (map (fun kv => (fst kv, (vtag (snd kv), vexact (snd kv)))) (uann r)).
 
 Definition stats_eqb (m m' : stats) : bool :=
   forallb (fun vw => (stat_get (fst vw) m' =? stat_get (fst vw) m)%Z) m &&
@@ -166,9 +247,10 @@ Definition merged_eqb (a b : list (N * stats)) : bool :=
   (length a =? length b)%nat &&
   forallb (fun km => match lookup (fst km) b with Some m' => stats_eqb (snd km) m' | None => false end) a.
 
-Definition ann_eqb (a b : list (N * N)) : bool :=
+Definition ann_eqb (a b : list (N * (N * N))) : bool :=
   (length a =? length b)%nat &&
-  forallb (fun kv => match lookup (fst kv) b with Some v' => snd kv =? v' | None => false end) a.
+  forallb (fun kv => match lookup (fst kv) b with
+                     | Some v' => (fst (snd kv) =? fst v') && (snd (snd kv) =? snd v') | None => false end) a.
 
 Definition out_eqb (x y : uout) : bool :=
   lN_eqb (oseq x) (oseq y) && lN_eqb (ocats x) (ocats y) && (ocount x =? ocount y)%Z &&
@@ -189,26 +271,44 @@ Fixpoint same_outs (a b : list uout) : bool :=
   end.
 
 (* hash used when the model is evaluated (the result does not depend on it: C06_hash_independent) *)
-Definition sum_hash (s : list N) : nat := N.to_nat (fold_left N.add s 0).
+Definition sum_hash (s : list N) : nat := N.to_nat (N.modulo (fold_left N.add s 0) 13).
+
+Definition ds_of (al : list (N * (N * option N))) : dspec :=
+  fun s => match lookup s al with Some d => d | None => (s, None) end.
 
 Record ccase := mkcase {
-  c_op : N;                          (* 0: IUniqueSequence ; 1: obidemerge on the slot [hd c_stats] *)
-  c_chunks : nat; c_cats : list N; c_stats : list N; c_na : N; c_nosingleton : bool;
-  c_recs : list urec; c_outs : list uout
+  c_op : N;                          (* 0: IUniqueSequence in memory ; 2: on disk ; 1: obidemerge on the slot [hd c_stats] *)
+  c_chunks : nat; c_cats : list N; c_ds : list (N * (N * option N)); c_stats : list N; c_na : N; c_nosingleton : bool;
+  c_recs : list urec;
+  c_ign : list N;                    (* annotations left out of the comparison (weight attributes: rewritten by GetIntAttribute) *)
+  c_crash : bool;                    (* the implementation stopped in log.Fatalf *)
+  c_outs : list uout
 }.
 
-Definition run_case (c : ccase) : list uout :=
-  if c_op c =? 0 then
-    map (project (c_na c) (c_cats c) (c_stats c))
-        (uniq sum_hash (c_chunks c) (c_cats c) (c_stats c) (c_na c) (c_nosingleton c) (c_recs c))
+Definition run_case (c : ccase) : option (list uout) :=
+  if c_op c =? 1 then
+    Some (map (project (c_na c) [] (c_stats c)) (demerge (hd 0 (c_stats c)) (c_recs c)))
   else
-    map (project (c_na c) [] (c_stats c)) (demerge (hd 0 (c_stats c)) (c_recs c)).
+    match uniq_run sum_hash (c_chunks c) (c_cats c) (ds_of (c_ds c)) (c_stats c) (c_na c) (c_nosingleton c) (c_recs c) with
+    | None => None
+    | Some outs =>
+      Some (map (project (c_na c) (c_cats c) (c_stats c))
+                (if c_op c =? 0 then outs
+                 else uniq_disk sum_hash (c_chunks c) (c_cats c) (ds_of (c_ds c)) (c_stats c) (c_na c) (c_nosingleton c)
+                                (fun r => r) (@rev (list urec)) (c_recs c)))
+    end.
+
+Definition ignore (ign : list N) (o : uout) : uout :=
+  mkout (oseq o) (ocats o) (ocount o) (omerged o) (filter (fun kv => negb (existsb (N.eqb (fst kv)) ign)) (oann o)).
 
 Fixpoint mismatches_from (i : nat) (l : list ccase) : list nat :=
   match l with
   | [] => []
   | c :: l' =>
     let rest := mismatches_from (S i) l' in
-    if same_outs (run_case c) (c_outs c) then rest else i :: rest
+    if match run_case c with
+       | None => c_crash c
+       | Some outs => negb (c_crash c) && same_outs (map (ignore (c_ign c)) outs) (c_outs c)
+       end then rest else i :: rest
   end.
 Definition mismatches := mismatches_from 0.
